@@ -387,10 +387,10 @@ CONTENTS_VIA_STDERR_FILE = Inst(contents_via_file.ContentsViaFile, _invariant=pr
 
 def _reread(at=None):
     if at is None:
-        d = {'re-readable: the text is what it was before': lambda self, old: prog_txt_of(self) == old}
+        d = {'re-readable: the text is what it was before (output of the program)': lambda self, old: prog_txt_of(self) == old}
     else:
-        d = {'re-readable: the text is what it was before': lambda self, old: prog_txt_of(self) == old[at]}
-    d['re-readable: the class invariant holds afterwards'] = lambda self: prog_cached_path_ok(self)
+        d = {'re-readable: the text is what it was before (output of the program)': lambda self, old: prog_txt_of(self) == old[at]}
+    d['re-readable: the class invariant holds afterwards (output of the program)'] = lambda self: prog_cached_path_ok(self)
     return d
 
 
@@ -445,7 +445,7 @@ M.contract(P_CWCP + ':StringSourceContentsWithCachedPath.as_file',
            params=dict(self=Union(CONTENTS_VIA_PROGRAM, CONTENTS_VIA_STDERR_FILE)), inline=True,
            old=lambda self: (prog_txt_of(self), self._as_file_path),
            ensures={'file decodes to txt (output of the program)': lambda self, result: file_text(result) == prog_txt_of(self),
-                    'the path is cached': lambda self, result: self._as_file_path is result,
+                    'the path is cached (output of the program)': lambda self, result: self._as_file_path is result,
                     'the file is made once: a cached path is kept (the program is run once)': lambda self, result, old:
                     old[1] is None or result is old[1],
                     'a new file stores the text as the program wrote it': lambda self, result, old:
@@ -512,7 +512,7 @@ M.contract('exactly_lib.impls.types.string_source.contents.frozen:frozen__from_w
            ensures={
                'the frozen text is the text of the program output, whatever the size of the buffer':
                lambda writer, result, old: txt_of(result) == old[0],
-               'implements I_SSC': lambda result: implements_i_ssc(result),
+               'implements I_SSC (frozen output of a program)': lambda result: implements_i_ssc(result),
                'the program is not run again when its output is in a file already': lambda writer, old:
                old[1] is None or writer._contents._as_file_path is old[1],
                'output that the program itself wrote is frozen on disk (a short one: as string and file)':
